@@ -67,6 +67,29 @@ def main(p):
                         bad.append(f"{k}: parsed {h.get(k)!r}, written {v!r}")
             except Exception as e:  # noqa: BLE001
                 bad.append(f"raised {type(e).__name__}: {e}")
+        elif p["kind"] == "mapping":
+            from astropy.coordinates import Angle, SkyCoord
+            from sigpyproc.header import Header
+            tel, be = p["telescope"], p["backend"]
+            for dec in (22.0144, -0.50125, -45.123456):
+                hdr = Header(filename=os.path.join(d, "obs.fil"), data_type=p["data_type"], nchans=4, foff=-0.390625, fch1=1510.0, nbits=8, tsamp=6.4e-5,
+                             tstart=58000.25, nsamples=16, nifs=1, coord=SkyCoord(83.633212, dec, unit="deg"), azimuth=Angle("12.5d"), zenith=Angle("33.25d"),
+                             telescope=tel, backend=be, source="J0534+2200", frame=p["frame"], ibeam=3, nbeams=13, dm=56.77, signed=True, rawdatafile="raw_0001.dat")
+                w = hdr.prep_outfile(fn)
+                w.cwrite(np.zeros(64, np.uint8))
+                w.close()
+                b = Header.from_sigproc(fn)
+                exp_t = tel if tel in sigproc.telescope_ids else "Fake"
+                exp_b = be if be in sigproc.machine_ids else "FAKE"
+                for f in ("nchans", "foff", "fch1", "nbits", "tsamp", "tstart", "nsamples", "nifs", "source", "frame", "ibeam", "nbeams", "dm", "signed", "rawdatafile", "data_type"):
+                    if getattr(hdr, f) != getattr(b, f):
+                        bad.append(f"{f}: wrote {getattr(hdr, f)!r}, read {getattr(b, f)!r}")
+                if b.telescope != exp_t or b.backend != exp_b:
+                    bad.append(f"telescope/backend: wrote {tel}/{be}, read {b.telescope}/{b.backend}")
+                if hdr.coord.separation(b.coord).arcsec > 0.01:
+                    bad.append(f"sky position moved by {hdr.coord.separation(b.coord).arcsec} arcsec (dec {dec})")
+                if abs(hdr.azimuth.deg - b.azimuth.deg) > 1e-9 or abs(hdr.zenith.deg - b.zenith.deg) > 1e-9:
+                    bad.append(f"pointing angles: wrote {hdr.azimuth.deg}/{hdr.zenith.deg}, read {b.azimuth.deg}/{b.zenith.deg}")
         elif p["kind"] == "edit":
             raw, ents = build(p["keys"], rng, with_defaults=False)
             data = bytes(rng.integers(0, 256, 64, dtype=np.uint8))
